@@ -491,3 +491,6 @@ def run(ctx):
     r4_val_sign(ctx)
     r5_case_folding_changes_only_letters(ctx)
     r6_functions_leave_their_arguments_alone(ctx)
+    # SPACE$(n) = STRING$(n, 32) however the 32 is supplied: the VM does not tell the numeric types apart
+    from . import c12
+    c12.r16_numeric_types_are_interchangeable_at_run_time(ctx, "C17.R7")
